@@ -79,6 +79,7 @@ func c12Classifier(r *core.Run, withTrip bool) {
 		c12IV(r, classifier)
 	}
 	if withTrip {
+		c12Eval(r)
 		if tripper == nil {
 			r.Floor("C12.TRIP", "trip-count derivation (writes Loop.TripCount)", 0, 1)
 		} else {
@@ -502,6 +503,57 @@ func c12Trip(r *core.Run, fn *ssa.Function) {
 			}
 			r.Check(okPol && nEdges >= 2, "C12.TRIP", construct+"/operator-follows-polarity", st.Pos(), "the comparison is used as written when the true edge stays in the loop and complemented (< ↔ >=, <= ↔ >, == ↔ !=) when it leaves", "the header test's polarity is not reflected in the operator: "+whyPol+" — 'for !(i >= n)' or 'if i < n { break }' would be counted like 'for i < n'")
 		}
+		// the division-based formulas (SCEVMax of a quotient) need a step of known sign that moves towards the limit;
+		// the NEQ form (a plain difference) has its own ±1 test
+		isQuotient := false
+		if strings.HasSuffix(kind, "SCEVMax") {
+			if y, ok := core.StructLitField(v, "Y"); ok && y != nil {
+				if op, ok := core.StructLitField(core.Unwrap(y), "Op"); ok && op != nil {
+					if k, isC := core.ConstInt(op); isC && token.Token(k) == token.QUO {
+						isQuotient = true
+					}
+				}
+			}
+		}
+		if isQuotient {
+			isStepVal := func(x ssa.Value) bool {
+				for _, o := range core.Origins(x) {
+					c, ok := o.(*ssa.Call)
+					if !ok || !c.Call.IsInvoke() || c.Call.Method.Name() != "EvaluateAt" {
+						return false
+					}
+					if _, isStep := core.FieldLoad(c.Call.Value, "Step"); !isStep {
+						return false
+					}
+				}
+				return true
+			}
+			chk("step-known", func(cond ssa.Value) (bool, bool) {
+				x, nonNilOnTrue, ok := core.NilCompare(cond)
+				if !ok || !isStepVal(x) {
+					return false, false
+				}
+				return true, nonNilOnTrue
+			}, "count only when the step evaluates to a constant", "a quotient formula is stored although the step is not a known constant: its sign is unknown")
+			chk("step-sign-tested", func(cond ssa.Value) (bool, bool) {
+				op, x, y, neg, ok := core.Compare(cond)
+				if !ok || neg {
+					return false, false
+				}
+				sc, isSign := callTo(x, "(*math/big.Int).Sign")
+				z, isZ := core.ConstInt(y)
+				if !isSign || !isZ || z != 0 || !isStepVal(sc.Call.Args[0]) {
+					return false, false
+				}
+				switch op {
+				case token.LEQ, token.GEQ, token.EQL:
+					return true, false // leaves only a strictly positive / strictly negative / non-zero step
+				case token.GTR, token.LSS, token.NEQ:
+					return true, true
+				}
+				return false, false
+			}, "count only after the sign of the step was tested", "a quotient formula is stored without a test of the step's sign: for a step that moves away from the limit (for i := 0; i < n; i--) the formula still evaluates to a number, which is not the iteration count")
+		}
 		chk("limit-invariant", core.BoolGuard(func(x ssa.Value) bool {
 			c, ok := x.(*ssa.Call)
 			return ok && c.Call.IsInvoke() && c.Call.Method.Name() == "IsLoopInvariant"
@@ -521,6 +573,120 @@ func c12Trip(r *core.Run, fn *ssa.Function) {
 		}, "count only for a basic (additive) induction variable", "a trip count is derived from a non-additive induction variable")
 	})
 	r.Floor("C12.TRIP", "stores of a computed trip count", n, 3)
+	// the "test fails at once" shortcut: a loop is declared dead only for start strictly beyond the limit, or equal to
+	// it when the comparison is not inclusive (for i := 10; i <= 10; i++ runs once)
+	var inclusive *ssa.Phi
+	core.InstrsOf(fn, func(in ssa.Instruction) {
+		ph, ok := in.(*ssa.Phi)
+		if !ok || ph.Type().String() != "bool" {
+			return
+		}
+		trueUnder := map[token.Token]bool{}
+		for i, e := range ph.Edges {
+			if c, isC := e.(*ssa.Const); isC && c.Value != nil && c.Value.String() == "true" {
+				var gate []token.Token
+				if op := tripOperatorPhi(fn); op != nil {
+					gate = phiTokensGating(fn, ph.Block().Preds[i], op)
+				} else {
+					gate, _ = tokensGating(fn, ph.Block().Preds[i], "Op")
+				}
+				for _, g := range gate {
+					trueUnder[g] = true
+				}
+			}
+		}
+		if len(trueUnder) == 2 && trueUnder[token.LEQ] && trueUnder[token.GEQ] {
+			inclusive = ph
+		}
+	})
+	nDead := 0
+	core.InstrsOf(fn, func(in ssa.Instruction) {
+		ph, ok := in.(*ssa.Phi)
+		if !ok || ph.Type().String() != "bool" || ph == inclusive {
+			return
+		}
+		// the dead flag: a bool phi whose true value leads to storing the constant 0 as trip count
+		leadsToZero := false
+		if refs := ph.Referrers(); refs != nil {
+			for _, ref := range *refs {
+				if ifi, ok := ref.(*ssa.If); ok {
+					for _, in2 := range ifi.Block().Succs[0].Instrs {
+						if st, ok := in2.(*ssa.Store); ok {
+							if fa, ok := st.Addr.(*ssa.FieldAddr); ok && core.FieldName(fa.X.Type(), fa.Field) == "TripCount" && strings.HasSuffix(core.TypeName(core.Unwrap(st.Val).Type()), "SCEVConstant") {
+								leadsToZero = true
+							}
+						}
+					}
+				}
+			}
+		}
+		if !leadsToZero {
+			return
+		}
+		for i, e := range ph.Edges {
+			c, isC := e.(*ssa.Const)
+			if !isC || c.Value == nil || c.Value.String() != "true" {
+				continue
+			}
+			nDead++
+			pred := ph.Block().Preds[i]
+			ok1, n1, path := core.MustPassUse(fn, core.Use{At: ph.Block(), Via: pred}, func(cond ssa.Value) (bool, bool) {
+				// strictly beyond the limit
+				if op, x, y, neg, ok := core.Compare(cond); ok && !neg {
+					if _, isCmp := callTo(x, "(*math/big.Int).Cmp"); isCmp {
+						if z, isZ := core.ConstInt(y); isZ && z == 0 && (op == token.GTR || op == token.LSS) {
+							return true, true
+						}
+					}
+				}
+				// ... or equal and not inclusive
+				base, negI := core.StripNot(cond)
+				if inclusive != nil && base == ssa.Value(inclusive) {
+					return true, negI
+				}
+				return false, false
+			})
+			r.Check(ok1 && n1 > 0, "C12.TRIP", fnm+"#dead-shortcut-respects-inclusive", ph.Pos(), "a loop is declared dead only for start strictly beyond the limit, or equal to it under a strict comparison", "the dead-loop shortcut fires for start == limit without looking at whether the comparison is inclusive ("+core.FmtPath(path)+"): for i := 10; i <= 10; i++ is annotated with trip count 0 although the body runs once")
+		}
+	})
+	r.Floor("C12.TRIP", "dead-loop shortcut sites", nDead, 2)
+}
+
+// phiTokensGating: the token constants k for which block sink is reachable from the edge `ph == k`.
+func phiTokensGating(fn *ssa.Function, sink *ssa.BasicBlock, ph *ssa.Phi) []token.Token {
+	var out []token.Token
+	for _, b := range fn.Blocks {
+		if len(b.Instrs) == 0 {
+			continue
+		}
+		ifi, ok := b.Instrs[len(b.Instrs)-1].(*ssa.If)
+		if !ok {
+			continue
+		}
+		op, x, y, neg, ok := core.Compare(ifi.Cond)
+		if !ok || neg || op != token.EQL || x != ssa.Value(ph) {
+			continue
+		}
+		k, isC := core.ConstInt(y)
+		if !isC {
+			continue
+		}
+		if b.Succs[0] == sink || core.ReachAvoiding(b.Succs[0], backEdges(fn))[sink] {
+			// not through another case of the same switch
+			direct := true
+			for _, in := range b.Succs[0].Instrs {
+				if i2, ok := in.(*ssa.If); ok {
+					if _, x2, _, _, ok2 := core.Compare(i2.Cond); ok2 && x2 == ssa.Value(ph) {
+						direct = false
+					}
+				}
+			}
+			if direct {
+				out = append(out, token.Token(k))
+			}
+		}
+	}
+	return out
 }
 
 
@@ -577,4 +743,75 @@ func c12Const(r *core.Run) {
 		})
 	}
 	r.Floor("C12.CONST", "constant nodes built by the SSA-constant converter", n, 2)
+}
+
+
+// c12Eval: evaluating a symbolic expression never changes it. Every EvaluateAt returns a value the caller may
+// keep (fresh, nil, cached, or what a sub-expression's EvaluateAt returned), and big.Int methods that write their
+// receiver are only applied to values allocated in the same call — never to a sub-expression's result or a node's
+// own constant, which would corrupt the trip-count tree for every later evaluation.
+func c12Eval(r *core.Run) {
+	p := r.P
+	n := 0
+	mutators := map[string]bool{"Add": true, "Sub": true, "Mul": true, "Quo": true, "Rem": true, "Div": true, "Mod": true, "Neg": true, "Set": true, "SetInt64": true, "SetUint64": true, "Exp": true, "Abs": true, "Lsh": true, "Rsh": true, "And": true, "Or": true, "Xor": true, "Not": true}
+	var fresh func(v ssa.Value, d int) bool
+	fresh = func(v ssa.Value, d int) bool {
+		if d > 6 {
+			return false
+		}
+		switch x := v.(type) {
+		case *ssa.Alloc:
+			return strings.HasSuffix(core.Deref(x.Type()).String(), "big.Int")
+		case *ssa.Call:
+			name := core.CalleeName(&x.Call)
+			if name == "math/big.NewInt" {
+				return true
+			}
+			if strings.HasPrefix(name, "(*math/big.Int).") && mutators[strings.TrimPrefix(name, "(*math/big.Int).")] {
+				return fresh(x.Call.Args[0], d+1) // returns its receiver
+			}
+		case *ssa.Phi:
+			for _, e := range x.Edges {
+				if !fresh(e, d+1) {
+					return false
+				}
+			}
+			return true
+		}
+		return false
+	}
+	for _, fn := range p.FuncsIn("pkg/analysis/loop") {
+		if fn.Name() != "EvaluateAt" || fn.Signature.Recv() == nil {
+			continue
+		}
+		fnm := core.FuncName(fn)
+		core.InstrsOf(fn, func(in ssa.Instruction) {
+			c := core.CallOf(in)
+			if c == nil {
+				return
+			}
+			name := core.CalleeName(c)
+			if !strings.HasPrefix(name, "(*math/big.Int).") || !mutators[strings.TrimPrefix(name, "(*math/big.Int).")] {
+				return
+			}
+			n++
+			r.Check(fresh(c.Args[0], 0), "C12.EVAL", fnm+"#writes-only-fresh("+strings.TrimPrefix(name, "(*math/big.Int).")+")", in.Pos(), "the big.Int that is written was allocated in this call", "a big.Int that was not allocated in this call ("+core.Canon(c.Args[0])+") is overwritten: it may be a sub-expression's value or a node's own constant, so evaluating a trip count changes it for every later evaluation")
+		})
+		for _, ret := range core.Returns(fn) {
+			for _, o := range core.Origins(ret.Results[0]) {
+				n++
+				ok := core.IsNilConst(o) || fresh(o, 0)
+				if c, isCall := o.(*ssa.Call); isCall && c.Call.IsInvoke() && c.Call.Method.Name() == "EvaluateAt" {
+					ok = true
+				}
+				if ex, isEx := o.(*ssa.Extract); isEx {
+					if _, isLk := ex.Tuple.(*ssa.Lookup); isLk {
+						ok = true // a cached result
+					}
+				}
+				r.Check(ok, "C12.EVAL", fnm+"#returns-owned-value", ret.Pos(), "EvaluateAt returns a fresh, cached or sub-expression value", "EvaluateAt hands out "+core.Canon(o)+", a value owned by the expression node: a caller that accumulates into it rewrites the expression")
+			}
+		}
+	}
+	r.Floor("C12.EVAL", "writes and returns of the symbolic evaluator", n, 6)
 }
